@@ -93,6 +93,7 @@ def run(rep, tier):
         summ = effects.wipe_summaries(m, count_plain_stores=lambda f: not is_cpp_dtor(f.name))
         rep.functions += len(summ)
         nobl = 0
+        req_by_type = {}
         for f in m.defined():
             kind = None
             if f.name in api and f.name.endswith("_free") or f.name in EXTRA_C_OBLIGATIONS:
@@ -128,6 +129,8 @@ def run(rep, tier):
             if not required:
                 continue
             nobl += 1
+            if kind == "free":
+                req_by_type.setdefault(sname, required)
             wiped = summ[f.name].must.get(0, frozenset())
             missing = sorted(x for x in required if x not in wiped)
             if kind == "clear" and missing:
@@ -151,7 +154,47 @@ def run(rep, tier):
                                       "required_bytes": len(required), "wiped_bytes": len(wiped)})
         if nobl < 25:
             rep.broken.append("%s: only %d obligations found in %s" % (rid, nobl, cname))
+        rule_locals(rep, m, cname, req_by_type)
     rep.floor(rid, 25 * len(jobs))
+
+
+def rule_locals(rep, m, cname, req_by_type):
+    """D3: a state object that lives on the stack of a library function (the
+    one-shot functions build one, use it and let it die) is wiped before every
+    return on which it was written, and - because the object is dead afterwards
+    and the compiler may therefore drop ordinary stores to it, also after
+    inlining a *_free function - only non-elidable wipes count here: calls to
+    ascon_clean / explicit_bzero / the back end's ascon_free, directly or
+    through callees."""
+    rid = "C13.D3"
+    rep.rule(rid, "state objects on the stack of a library function are wiped with a non-elidable primitive before every return")
+    types = {"%" + t if not t.startswith("%") else t for t in req_by_type}
+
+    def pred(f, i):
+        return (i.d.get("aty") or "").lstrip("%") in {t.lstrip("%") for t in types}
+    strict = effects.wipe_summaries(m, count_plain_stores=lambda f: False, allocas=pred)
+    for f in m.defined():
+        for i in f.insts():
+            if i.op != "alloca" or not pred(f, i):
+                continue
+            sname = (i.d.get("aty") or "").lstrip("%")
+            required = req_by_type.get(sname) or req_by_type.get("%" + sname)
+            if not required:
+                continue
+            got = strict[f.name].must.get("a:" + i.id, frozenset())
+            missing = sorted(x for x in required if x not in got)
+            if missing:
+                names = []
+                for x in missing:
+                    if required[x] not in names:
+                        names.append(required[x])
+                rep.violation(rid, "%s:%s" % (f.name, i.id.lstrip("%")), i.where() if i.loc else f.src,
+                              "%s returns on some path with its local %s `%s` still holding member(s) %s (%d byte(s)): no "
+                              "non-elidable wipe (ascon_clean or a callee that reaches it) covers them, and ordinary stores to a "
+                              "dying object may be removed by the optimiser" % (f.name, sname, i.id.lstrip("%"), ", ".join(names), len(missing)),
+                              config=cname, detail={"missing_offsets": missing})
+            else:
+                rep.instance(rid, 1, {"config": cname, "function": f.name, "local": i.id, "object": sname})
 
 
 def _ranges(xs):
